@@ -146,3 +146,18 @@ let sx_of_modifier (m : modifier) : sx =
   | MHeadHead (p, q) -> L [A "HH"; sx_of_z p; sx_of_z q]
   | MTailTail (p, q) -> L [A "TT"; sx_of_z p; sx_of_z q]
 let sx_of_segs (l : (z * z) list) : sx = L (List.map (fun (a, b) -> L [A "G"; sx_of_z a; sx_of_z b]) l)
+
+let rec filt_of_sx (x : sx) : filt =
+  match x with
+  | A "true" -> FTrue
+  | A "false" -> FFalse
+  | L (A "and" :: l) -> FAnd (List.map filt_of_sx l)
+  | L (A "or" :: l) -> FOr (List.map filt_of_sx l)
+  | L [A "not"; f] -> FNot (filt_of_sx f)
+  | L [A "within"; a; b] -> FWithin (z_of_sx a, z_of_sx b)
+  | L [A "overlap"; a; b] -> FOverlap (z_of_sx a, z_of_sx b)
+  | L [A "key"; k] -> FKey (bytes_of_sx k)
+  | L [A "qual"; n; q] -> FQual (bytes_of_sx n, bytes_of_sx q)
+  | A "fwd" -> FFwd
+  | A "rev" -> FRev
+  | _ -> failwith "filter expected"
